@@ -108,6 +108,7 @@ deriving DecidableEq, Repr
 /-- the events of the routine that concern integers / return values, in textual order -/
 inductive Event where
   | rankTestReturnMinus1     -- `ibz_mat_4x4_inv_with_det_as_denom(NULL,&det,&lattice->basis)`; `if (!full_rank) return -1;`
+  | rankComputedNoReturn     -- the determinant is computed but the routine does not return on rank deficiency
   | setPrecision             -- `mpf_set_default_prec(..)` (float; position only)
   | transposeIn              -- `ibz_mat_4x4_transpose(&basis, &lattice->basis)`
   | initHIdentity            -- `H[i][j] = (i == j)`
